@@ -730,3 +730,44 @@ package fsutil
 //@   loop 0 invariant below: forall a int, i int :: 0 <= a && a < len(out) && rangeindex < i && i < len(in) ==> specPathLess(out[a], in[i])
 //@   loop 0 invariant ordered: forall a int, b int :: 0 <= a && a < b && b < len(out) ==> specPathLess(out[a], out[b])
 //@   loop 0 invariant prefix_free{inside_less,contiguity,pathless_asym,inside_hasprefix}: forall a int, b int :: 0 <= a && a < len(out) && 0 <= b && b < len(out) && a != b ==> !specInside(out[b], out[a])
+
+//@ func statFile$1
+//@   property C18
+
+//@ func readDir$1
+//@   property C18
+//@   modifies array os.DirEntry
+
+//@ func containsWildcards
+//@   property C18
+//@   safety +overflow
+//@   loop 0 invariant lo: 0 <= i && i <= len(name) + 1
+
+// looking up one entry of the view does not touch the resolver's state
+//@ func statFile
+//@   property C18
+//@   ensures found: result1 == nil && result0 == nil ==> true
+
+//@ func readDir
+//@   property C18
+//@   modifies array os.DirEntry
+
+//@ func symlinkResolver.readSymlink
+//@   property C18
+//@   requires r != nil
+//@   modifies array os.DirEntry, array string
+
+// Termination measure of the resolver as a contract: a path that resolves to
+// link targets is added to the (finite) set of resolved paths as a NEW element
+// before any recursive call is made, and an already resolved path returns at
+// once - so every recursive descent strictly shrinks the set of unresolved
+// link paths. The set only grows.
+//@ func symlinkResolver.append
+//@   property C18
+//@   requires r != nil && r.resolved != nil
+//@   modifies r.resolved[*], array os.DirEntry, array string
+//@   loop 0 invariant unchanged: (forall k string :: haskey(r.resolved, k) == old(haskey(r.resolved, k))) && len(r.resolved) == old(len(r.resolved))
+//@   loop 1 invariant grown: (forall k string :: old(haskey(r.resolved, k)) ==> haskey(r.resolved, k)) && len(r.resolved) > old(len(r.resolved)) && haskey(r.resolved, current)
+//@   ensures grows: forall k string :: old(haskey(r.resolved, k)) ==> haskey(r.resolved, k)
+//@   ensures size: len(r.resolved) >= old(len(r.resolved))
+//@   at call symlinkResolver.append: new_link_before_recursion: len(r.resolved) > old(len(r.resolved)) && haskey(r.resolved, current)
